@@ -258,3 +258,19 @@ Definition ubi_apply_exact (ubi_sum amount period hardcap : Z) : outcome Z :=
   else if hardcap <? ubi_sum + Z.quot (amount * 31556952) period then Err "ubi sum overflows hardcap"
   else Ok amount.
 Definition ubi_apply_on (uint64_arith : bool) := if uint64_arith then ubi_apply else ubi_apply_exact.
+
+(* ClaimSpendingPool with the dynamic-rate case: AFTER the "claimStart >= claimEnd" check a dynamic pool moves the
+   claim start to the last rate recalculation, so the duration can be NEGATIVE (recalculation after the claim end).
+   [unchecked] = no amount.IsNegative() / SafeSub guard. *)
+Definition claim_dyn (unchecked : bool) (poolbal : Z) (rate w : dec) (cstart last now cend expiry : Z) (dyn : bool) (lastcalc : Z) : outcome Z :=
+  if w =? 0 then Err "not-beneficiary" else
+  let cs := Z.max cstart last in
+  let ce := if negb (cend =? 0) && (cend <? now) then cend else now in
+  if ce <=? cs then Err "no-more-rewards" else
+  let cs' := if dyn && (cs <? lastcalc) then lastcalc else cs in
+  let dur := Z.min (ce - cs') expiry in
+  do a1 <- relabel (dmul rate (dec_of_int dur)); do a2 <- relabel (dmul a1 w);
+  let amount := round_int a2 in
+  if amount <? 0 then (if unchecked then Panic "neg-coin" else Err "pool balance does not cover the amount")
+  else if poolbal <? amount then (if unchecked then Panic "neg-coin" else Err "pool balance does not cover the amount")
+  else Ok (poolbal - amount).
